@@ -129,6 +129,49 @@ def empty_hunks(ctx):
     for (bb, ze, nz) in tests:
         if sinks and all(edge_dominates(sd, (bb, nz), c.bb) for c in sinks):
             ok = True
+    if not ok and sinks:
+        # helper form: the range comes out of a helper that answers None for an empty hunk, and the pushes are dominated by
+        # the Some edge of what the helper (possibly through Option::and_then / map and a closure) returned
+        from common import result_edges
+
+        def none_for_zero(h):
+            """every construction of Some(..) in h is dominated by the non-zero edge of a `count == 0` test"""
+            zt = []
+            for bb in range(len(h.blocks)):
+                t = h.term(bb)
+                if t[0] != "switch":
+                    continue
+                if t[4] != "bool" and len(t[2]) == 1 and int(t[2][0][0]) == 0:
+                    o0 = operand_origin(h, t[1])
+                    if not (o0 and o0[0] == "discr"):
+                        zt.append((bb, t[3]))
+                    continue
+                o = operand_origin(h, t[1])
+                if o and o[0] == "bin" and o[1] in ("Eq", "Ne") and any(x[0] == "const" and x[1] == 0 for x in (o[2], o[3])):
+                    tf = switch_true_false(h, bb)
+                    if tf:
+                        zt.append((bb, tf[1] if o[1] == "Eq" else tf[0]))
+            somes = [bb for bb, i, st in h.stmts() if st[0] == "=" and st[2][0] == "agg" and isinstance(st[2][1], list)
+                     and st[2][1][0] == "adt" and st[2][1][1].endswith("option::Option") and st[2][1][2] == "Some" and st[1][0] == 0]
+            return bool(zt) and bool(somes) and all(any(edge_dominates(h, (zb, nzb), sb) for (zb, nzb) in zt) for sb in somes)
+
+        helpers = {h.id for h in p.by_crate.get("rustfmt_format_diff", []) if h.kind != "Closure" and "Option" in h.locals[0] and none_for_zero(h)}
+        for c in sd.calls():
+            tg = {c.resolved} | set(c.refs)
+            via = set()
+            for x in tg:
+                g = p.fns.get(x or "")
+                if g is None:
+                    continue
+                if g.id in helpers:
+                    via.add(g.id)
+                elif g.kind == "Closure" and any((cc.resolved or "") in helpers for cc in g.calls()):
+                    via.add(g.id)
+            if not via:
+                continue
+            for e in result_edges(sd, c):
+                if e["ok"] is not None and all(edge_dominates(sd, (e["sw"], e["ok"]), k.bb) for k in sinks):
+                    ok = True
     r.instance(C, "scan_diff: zero-count hunks skipped", "ok" if ok else "violation", "%s:%d" % (sd.file, sd.line),
                "%d sink calls, %d zero tests" % (len(sinks), len(tests)))
     r.floor(C, len(sinks), 2, "pushes into ranges/files in scan_diff")
